@@ -28,6 +28,19 @@ THEOREMS = [
     "PorepyVerif.C20.face3_geometry_equivariant",
     "PorepyVerif.C20.cell3_geometry_equivariant",
     "PorepyVerif.C20.geom3_equivariant",
+    "PorepyVerif.C20.euclidean_length_real",
+    "PorepyVerif.C20.norm_rotate_real",
+    "PorepyVerif.C20.unit_normal_is_unit_real",
+    "PorepyVerif.C20.unit_normal_equivariant_real",
+    "PorepyVerif.C20.geom1_equivariant_real",
+    "PorepyVerif.C20.geom2_equivariant_real",
+    "PorepyVerif.C20.geom3_equivariant_real",
+    "PorepyVerif.C20.rodrigues_isRot",
+    "PorepyVerif.C20.project_matrix_real",
+    "PorepyVerif.C20.map_grid_isometry_real",
+    "PorepyVerif.C20.map_grid_flat_real",
+    "PorepyVerif.C20.map_grid_of_moved_grid2_real",
+    "PorepyVerif.C20.map_grid_of_moved_grid1_real",
 ]
 LEAN_MODULES = ["PorepyVerif.C20.Props"]
 AUDIT = "PorepyVerif/C20/Audit.lean"
@@ -43,27 +56,32 @@ RULE = ("one grid + one rigid motion per case. Grids: 1-D (uniform / non-uniform
         "-> plane fitting with map_geometry.compute_normal + convex fallback), two disconnected patches of equal area with opposite orientation "
         "(check 2), of unequal area (check 3). Motion: proper rotation from an integer quaternion (all rational rotations; identity, half turns, "
         "quarter turns and generic ones) + dyadic translation; with probability 0.4 the grid is first embedded by another such motion, so that both "
-        "the reference and the moved grid lie in a generic line / plane of 3-D. non-trivial = rotation is not the identity; distinct = distinct cases")
+        "the reference and the moved grid lie in a generic line / plane of 3-D. For 1-D / 2-D grids map_grid is run on both grids as well. non-trivial = rotation is not the identity; distinct = distinct cases")
 TRUSTED = [
-    "modelled, not verified: the real square root. The model is parametric in a function sq : Rat -> Rat used wherever the code takes a square root "
-    "(np.sqrt, np.linalg.norm); every theorem holds for EVERY such function, because all arguments of sq are invariants of the motion; the driver "
-    "instantiates sq with a rational square root accurate to 2^-64. The statement for the real sqrt has the same proof but is not formalised (reals are outside the model)",
+    "the real square root is now INSIDE the theorems: model and lemmas are generic over a linearly ordered field K and a function sq : K -> K; the *_real theorems "
+    "instantiate K = R, sq = Real.sqrt (Mathlib) and quantify over every real proper rotation matrix. What stays outside: the driver runs the same definitions "
+    "with K = Rat and a rational square root accurate to 2^-64 (asqrt), compared with the implementation at 1e-9",
     "modelled, not verified: binary64 rounding, in particular the tie-breaking of np.argmax in compute_tangent / compute_normal between points that are "
-    "equally far from the mean (the model breaks ties exactly, the theorems show the selected index is invariant in exact arithmetic); the compared "
-    "final fields do not depend on that choice",
+    "equally far from the mean (the model breaks ties exactly, the theorems show the selected index is invariant in exact arithmetic); the geometry "
+    "fields do not depend on that choice; the map_grid rotation does, so its comparison is skipped (and counted) when the model reports a relative argmax margin < 1e-7",
     "modelled, not verified: compute_normal's collinearity test np.allclose(normal, 0, atol=tol*|v1|^2) is component-wise and therefore not rotation invariant "
     "inside a band of width sqrt(3) around the tolerance (point clouds that are collinear up to ~1e-5); the model reproduces the test for the correspondence "
     "(RuntimeError), the theorems are about the returned normal, generated grids stay far from the band",
-    "oracle only (no model): map_grid / project_plane_matrix / project_line_matrix / rotation_matrix give an isometric local copy of the moved 1-D / 2-D grid "
-    "(proper rotation, node distances, centre distances and normal lengths preserved); compute_geometry itself no longer calls them",
+    "modelled, not verified: the trigonometric step of project_plane_matrix / project_line_matrix: the model uses cos(arccos c) = c and sin(arccos c) = sqrt(1 - c^2) "
+    "in rotation_matrix; points_are_planar / the numerical 'active dimension' thresholds of map_grid are reproduced for the correspondence, the theorem "
+    "map_grid_flat_real states the exact counterpart (third local coordinate constant)",
     "modelled, not verified: numpy / scipy.sparse glue that gathers node coordinates per face and per cell (done by the harness when it resolves the grid "
     "for the driver), np.bincount, sparse products, np.unique(return_index)",
 ]
-EXPLANATION = ("CORE: the model mirrors _compute_geometry_1d/_2d/_3d, compute_tangent and compute_normal formula by formula over Q (square roots through an "
-               "abstract function); theorems: cross/dot/norm equivariance of rotations (R^T R = 1, det R = 1), and equivariance of every geometry field of "
-               "the three grid-level functions (volumes/areas invariant, centres moved, normals rotated), all orientation branches included. Correspondence "
-               "compares all fields of the reference and of the moved grid with the model (1e-9); the oracle checks the equivariance statement on the real code (1e-10). "
-               "The generated motions are tied to the hypothesis of the theorems: quat_rotation_isRot proves that every non-zero rational quaternion gives a proper rotation, "
+EXPLANATION = ("CORE: the model mirrors _compute_geometry_1d/_2d/_3d, compute_tangent, compute_normal, rotation_matrix, project_plane/line_matrix and map_grid formula by "
+               "formula, generic over an ordered field K with an abstract square root; theorems (for every K, every sq): cross/dot/norm equivariance of rotations "
+               "(R^T R = 1, det R = 1), equivariance of every geometry field of the three grid-level functions (volumes/areas invariant, centres moved, normals rotated), "
+               "all orientation branches included; instantiated at K = R with Real.sqrt for EVERY real proper rigid motion (geom1/2/3_equivariant_real, Euclidean length, "
+               "unit normals). map_geometry: the Rodrigues matrix of a unit vector is a proper rotation taking it to the reference (any field); over R the coded "
+               "project matrix is that rotation, map_grid returns a rigid copy of the fields (distances and dot products preserved, planar grids land in a coordinate "
+               "plane), also when applied to the moved grid. Correspondence compares all geometry fields of the reference and of the moved grid, and map_grid's rotation, "
+               "active dimensions and local fields, with the model (1e-9); the oracle checks the equivariance statement and the map_grid isometry on the real code (1e-10). "
+               "The generated motions are tied to the hypothesis of the theorems: quat_rotation_isRot proves that every non-zero quaternion gives a proper rotation, "
                "and the driver re-computes the exact motion of the reference nodes with the model's act/quatMat (compared exactly) and decides IsRot.")
 ASSUMPTIONS = ["cells have at least one face, faces at least one node, cell volumes and (3-D) face areas are non-zero (otherwise the code divides by zero)",
                "2-D cells on the convex fallback path are convex (the code's own assumption)"]
@@ -397,9 +415,28 @@ def geometry(case, nodes):
             "cc": [[float(v) for v in c] for c in g.cell_centers.T]}
 
 
+def mapgrid_impl(case, nodes):
+    """compute_geometry + map_grid on the real code -> rotation, active dimensions, local coordinates (or {"err": kind})"""
+    import porepy as pp
+    g = build_grid(case, nodes)
+    try:
+        with warnings.catch_warnings():
+            warnings.simplefilter("ignore")
+            with np.errstate(all="ignore"):
+                g.compute_geometry()
+                cc, fn, fc, R, dim, nd = pp.map_geometry.map_grid(g)
+    except Exception as e:
+        return err_kind(e)
+    cols = lambda a: [[float(v) for v in c] for c in np.atleast_2d(a).T]
+    return {"R": [[float(v) for v in row] for row in R], "dim": [bool(d) for d in dim], "cc": cols(cc), "fn": cols(fn), "fc": cols(fc), "nodes": cols(nd)}
+
+
 def impl_run(case):
     b, m = both_nodes(case)
-    return {"base": geometry(case, b), "moved": geometry(case, m)}
+    out = {"base": geometry(case, b), "moved": geometry(case, m)}
+    if case["dim"] < 3:
+        out["map_base"], out["map_moved"] = mapgrid_impl(case, b), mapgrid_impl(case, m)
+    return out
 
 
 # ----------------------------------------------------------------------------- oracle: the equivariance statement on the real code
@@ -507,14 +544,36 @@ def resolve(case, nodes):
             "cells": [[{"s": s, "ps": [_v(nodes, j) for j in fnodes[f]]} for f, s in col] for col in ccols]}
 
 
+_MAPSTAT = {"compared": 0, "skipped_argmax_tie": 0, "errors": 0}   # filled by compare(), reported by stats()
+MARGIN = 1e-7   # below this relative gap an argmax inside compute_tangent / compute_normal may be decided differently by rounding
+
+
 def model_ops(case):
     b, m = both_nodes(case)
-    return [{"op": "geom", "dim": case["dim"], "grid": resolve(case, b)}, {"op": "geom", "dim": case["dim"], "grid": resolve(case, m)},
-            {"op": "motion", "q": [str(v) for v in case["motion"]["q"]], "t": case["motion"]["t"], "pts": [_v(b, j) for j in range(len(b[0]))]}]
+    rb, rm = resolve(case, b), resolve(case, m)
+    ops = [{"op": "geom", "dim": case["dim"], "grid": rb}, {"op": "geom", "dim": case["dim"], "grid": rm},
+           {"op": "motion", "q": [str(v) for v in case["motion"]["q"]], "t": case["motion"]["t"], "pts": [_v(b, j) for j in range(len(b[0]))]}]
+    if case["dim"] < 3:
+        ops += [{"op": "mapgrid", "dim": case["dim"], "grid": rb}, {"op": "mapgrid", "dim": case["dim"], "grid": rm}]
+    return ops
+
+
+def _decode_map(o):
+    """mask the rotated fields with the active dimensions, as map_grid does; flag unsafe argmax decisions"""
+    if "err" in o:
+        return o
+    if float(F(o["margin"])) < MARGIN:
+        return {"skipped": "argmax-tie"}
+    act = [i for i in range(3) if o["dim"][i]]
+    pick = lambda pts: [[p[i] for i in act] for p in pts]
+    return {"R": o["R"], "dim": o["dim"], "cc": pick(o["cc"]), "fn": pick(o["fn"]), "fc": pick(o["fc"]), "nodes": pick(o["nodes"])}
 
 
 def model_decode(outs, case):
-    return {"base": outs[0], "moved": outs[1], "motion": outs[2]}
+    d = {"base": outs[0], "moved": outs[1], "motion": outs[2]}
+    if case["dim"] < 3:
+        d["map_base"], d["map_moved"] = _decode_map(outs[3]), _decode_map(outs[4])
+    return d
 
 
 def compare(impl, model, case):
@@ -528,7 +587,11 @@ def compare(impl, model, case):
     if d:
         return d
     s = max(_scale(case, b), _scale(case, m))
-    return deep_compare(impl, {k: model[k] for k in ("base", "moved")}, tol=CTOL * s)
+    keys = ["base", "moved"] + [k for k in ("map_base", "map_moved") if k in model and "skipped" not in model[k]]
+    for k in ("map_base", "map_moved"):
+        if k in model:
+            _MAPSTAT["skipped_argmax_tie" if "skipped" in model[k] else "errors" if "err" in model[k] else "compared"] += 1
+    return deep_compare({k: impl.get(k) for k in keys}, {k: model[k] for k in keys}, tol=CTOL * s)
 
 
 def signature(case):
@@ -559,4 +622,5 @@ def stats(cases, impl_outs):
     cells = [len(c["cf"]["indptr"]) - 1 for c in cases]
     return {"grid_kinds": dict(kinds), "variants_2d": dict(variants), "rotations": dict(rots), "pre_embedded": sum(1 for c in cases if c.get("pre")),
             "errors_raised_by_reference": {str(k): v for k, v in errs.items()}, "cells_min_max": [min(cells, default=0), max(cells, default=0)],
+            "map_grid_comparisons": dict(_MAPSTAT),
             "max_translation": max((abs(float(F(v))) for c in cases for v in c["motion"]["t"]), default=0)}
